@@ -632,6 +632,7 @@ type shutScn struct {
 	Fresh      int    `json:"fresh"`            // connected, never sent anything
 	Busy       int    `json:"busy"`             // request in progress (handler blocked until released)
 	Closing    int    `json:"closing"`          // clients that close right around Shutdown
+	Late       int    `json:"late,omitempty"`   // clients that connect while Shutdown is running
 	Stream     int    `json:"stream,omitempty"` // the handler has returned, a server goroutine is sending a response larger than the socket takes; the client reads it when the busy handlers are released
 	DeadlineMS int    `json:"deadline_ms"`      // Shutdown context deadline
 	ReleaseMS  int    `json:"release_ms"`       // busy handlers are released this long after Shutdown started (<0: only after Shutdown returned)
@@ -842,6 +843,26 @@ func runShutdown(s shutScn) (sig, msg string) {
 	defer cancel()
 	t0 := time.Now()
 	resc := make(chan error, 1)
+	var lateMu sync.Mutex
+	var late []net.Conn
+	var lateWG sync.WaitGroup
+	for i := 0; i < s.Late; i++ {
+		lateWG.Add(1)
+		go func() {
+			defer lateWG.Done()
+			if c, err := dial(); err == nil {
+				lateMu.Lock()
+				late = append(late, c)
+				lateMu.Unlock()
+			}
+		}()
+	}
+	defer func() {
+		lateWG.Wait()
+		for _, c := range late {
+			c.Close()
+		}
+	}()
 	go func() { resc <- evl.Shutdown(ctx) }()
 	var serr error
 	select {
@@ -911,8 +932,10 @@ func runShutdown(s shutScn) (sig, msg string) {
 			return "busy-disturbed", fmt.Sprintf("the server-side Write of a response in flight at Shutdown failed: %s", e)
 		}
 	}
-	// idle connections were closed by Shutdown (the client sees EOF), whatever Shutdown returned
-	for i, c := range append(append([]net.Conn(nil), idle...), fresh...) {
+	// idle connections were closed by Shutdown (the client sees EOF), whatever Shutdown returned;
+	// so were the ones that slipped in while it was running
+	lateWG.Wait()
+	for i, c := range append(append(append([]net.Conn(nil), idle...), fresh...), late...) {
 		c.SetReadDeadline(time.Now().Add(10 * time.Second))
 		if _, err := c.Read(make([]byte, 1)); err == nil {
 			return "idle-not-closed", fmt.Sprintf("idle connection %d is still open after Shutdown", i)
@@ -1115,6 +1138,7 @@ func TestVerifC13Live(t *testing.T) {
 		s.Fresh = rapid.IntRange(0, 2).Draw(t, "fresh")
 		s.Busy = rapid.IntRange(0, 3).Draw(t, "busy")
 		s.Closing = rapid.IntRange(0, 3).Draw(t, "closing")
+		s.Late = rapid.SampledFrom([]int{0, 0, 1, 4, 16}).Draw(t, "late")
 		if rapid.IntRange(0, 2).Draw(t, "hasStream") == 0 {
 			s.Stream = rapid.IntRange(1, 2).Draw(t, "stream")
 		}
@@ -1143,6 +1167,9 @@ func TestVerifC13Live(t *testing.T) {
 		st.class("net-" + s.Network)
 		if s.Stream > 0 {
 			st.class("response-in-flight")
+		}
+		if s.Late > 0 {
+			st.class("connects-during-shutdown")
 		}
 		if (s.Busy+s.Stream > 0 && s.Idle+s.Fresh > 0) || s.Closing > 0 {
 			st.class("nontrivial")
